@@ -58,7 +58,7 @@ _hist_prop("C06", ["CC.Props.C06", "CC.Props.NonVacuity"],
 _hist_prop("C09", ["CC.Props.C09", "CC.Props.NonVacuity"],
     "Lean theorems characterising, for all states and arguments, exactly when each structure edit, rekey, update_msk, key generation, encapsulation and refresh fail (iff statements: encaps_ok_iff, refresh_ok_iff); over every history an issued key stays refreshable with either flag. Correspondence: histories with 35% malformed arguments (unknown/duplicate/stale names, same-dimension clauses, rollbacks of the master key); ok/err of every call compared with the model")
 _hist_prop("C10", ["CC.Props.C10"],
-    "Lean theorems over models that return the state the code leaves behind on each path: a failing update_msk, rekey, key generation or refresh returns the master key (and the user key) unchanged - the in-loop error branches are unreachable once the up-front validation passed. Correspondence: histories with 35% malformed arguments; serialised master and user keys dumped after every failing call and compared")
+    "Lean theorems over models that return the state the code leaves behind on each path: a failing update_msk, rekey, key generation or refresh returns the master key (and the user key) unchanged - the in-loop error branches are unreachable once the up-front validation passed; as one statement over the world machine: whatever the state and arguments, an operation that reports an error leaves the master key as it was (failed_step_leaves_master_key). Correspondence: histories with 35% malformed arguments; serialised master and user keys dumped after every failing call and compared")
 _hist_prop("C11", ["CC.Props.C11", "CC.Props.NonVacuity"],
     "Lean theorems: a right's hint is the disjunction of its attributes' hints; new secrets take the hint's flavour; rekey keeps flavours; public keys and refreshed user keys copy master secrets (flavour included); an encapsulation is hybridized iff all targeted keys are; classic secrets open nothing in a hybridized encapsulation; over every history the newest secret of a right is hybridized exactly when one of its (live) attributes was declared hybridized, and update_msk never strips a post-quantum key (flavour_follows_hints, update_never_strips). Correspondence: flavour flags of MSK/MPK/USK/XEnc dumps for random hint assignments and mixed-hint policies")
 _hist_prop("C17", ["CC.Props.C17", "CC.Props.C17Alg", "CC.Props.C01Alg", "CC.Props.NonVacuity"], configs=BOTH, text=
